@@ -57,7 +57,10 @@ CLAIMED['C04'] = dict(
          'operand; C04.C1 the real lowering functions break_ / continue_ / return_ / emit_return / try_ / loop_scope / child are '
          'executed with opaque sub-constructs and a ghost list of open try blocks (<= 3): every exit pops exactly the handlers of '
          'the try blocks it leaves, nested code sees the right try/loop attributes, nested functions start with none, and every '
-         'path through the emitted try skeleton registers and deactivates its handler exactly once.',
+         'path through the emitted try skeleton registers and deactivates its handler exactly once; C04.K4 every native and every '
+         'Enumerate::next of laythe_lib that calls back into the program (24 units: call / each / reduce / sort / collect / the '
+         'adaptor iterators ...) runs from MIR with callbacks summarised by "returns any value or raises": on every path on which a '
+         'callback raised the native ends in Call::Err (found and fixed F32: List.sort dropped its comparator\'s error).',
     note='Trusted: rustc MIR printer, mirsym, abstract object identities (vmabs.py), uninterpreted is_subclass/class_of, Z3. '
          'Known design-level findings F5/F6 live in the lowering, outside these kernels.',
     ref='§4 C04')
